@@ -17,8 +17,12 @@ import PPProofs.Props.C11Deep
 #print axioms PP.PRHeap.deepcopy_frame_tokens_many
 #print axioms PP.PRHeap.deepcopy_names_shared
 #print axioms PP.PRHeap.deepcopy_named_alias_any_depth
+#print axioms PP.PRHeap.deepcopy_tokens_fresh_full
 #print axioms PP.PRHeap.deepcopyN_corr
 #print axioms PP.PRHeap.deepcopyN_ext
+#print axioms PP.PRHeap.copyModule_deep_fresh
+#print axioms PP.PRHeap.copyModule_deep_frame
+#print axioms PP.PRHeap.deepObjN_spec
 #print axioms PP.PRHeap.frame_step
 #print axioms PP.PRHeap.frame_all
 #print axioms PP.PRHeap.copy_frame
